@@ -159,6 +159,29 @@ pub fn scalar_of_const<'tcx>(tcx: TyCtxt<'tcx>, did: DefId) -> J {
     }
 }
 
+/// value of a non-generic `&'static str` constant (the bytes of the evaluated slice), for rules that need to know what a pattern
+/// fragment contains
+pub fn str_of_const<'tcx>(tcx: TyCtxt<'tcx>, did: DefId) -> J {
+    if tcx.generics_of(did).requires_monomorphization(tcx) {
+        return J::Null;
+    }
+    let t = tcx.type_of(did).instantiate_identity().skip_norm_wip();
+    let is_str = matches!(t.kind(), ty::Ref(_, inner, _) if inner.is_str());
+    if !is_str {
+        return J::Null;
+    }
+    match tcx.const_eval_poly(did) {
+        Ok(v) => match v.try_get_slice_bytes_for_diagnostics(tcx) {
+            Some(b) => match std::str::from_utf8(b) {
+                Ok(x) => s(x),
+                Err(_) => J::Null,
+            },
+            None => J::Null,
+        },
+        Err(_) => J::Null,
+    }
+}
+
 pub fn scalar_to_j<'tcx>(si: ty::ScalarInt, ty: ty::Ty<'tcx>) -> J {
     let size = si.size();
     let bits = si.to_bits(size);
@@ -287,6 +310,7 @@ pub fn dump_items<'tcx>(tcx: TyCtxt<'tcx>, top: &mut Vec<(&'static str, J)>) {
                     J::O(vec![
                         ("ty", s(ty_str(t))),
                         ("val", scalar_of_const(tcx, did)),
+                        ("str", str_of_const(tcx, did)),
                         ("span", s(span_str(tcx, tcx.def_span(did)))),
                     ]),
                 ));
